@@ -183,7 +183,7 @@ impl quote::ToTokens for ParamsGenerator<'_> {
                     stream,
                     impl_t,
                     syn::token::Colon::default(),
-                    CoreMarker("Sync", proc_macro2::Span::call_site())
+                    CoreMarker::Sync(proc_macro2::Span::call_site())
                 );
 
                 if self.takes_self_by_value.0 {
@@ -191,7 +191,7 @@ impl quote::ToTokens for ParamsGenerator<'_> {
                         stream,
                         syn::token::Plus::default(),
                         // In case T is not a reference, it has to be Send
-                        CoreMarker("Send", proc_macro2::Span::call_site())
+                        CoreMarker::Send(proc_macro2::Span::call_site())
                     );
                 }
 
